@@ -176,7 +176,7 @@ func ZZ_C12_Restart() {
 		release()
 		mgr.jobs <- completion
 		zzSettle(mgr)
-	case 3, 4: // a merge whose body ran between an import job's body and completion;
+	case 3, 4, 7: // a merge whose body ran between an import job's body and completion;
 		// 3: killed before the merge's completion (inputs and result on disk), 4: clean shutdown afterwards
 		var idxs, midxs []*index.Reader
 		var rel, mrel indexReleaser
@@ -199,8 +199,15 @@ func ZZ_C12_Restart() {
 		go mgr.mergeIndexesJob(0, midxs, mrel)
 		mergeDone := <-mgr.jobs
 		apply("c.pcap")
-		if gate == 3 {
+		if gate == 3 || gate == 7 {
 			zz.FSCopyTree(zzRoot, root2)
+		}
+		if gate == 7 { // killed while the merged inputs were being deleted: one of them is gone already
+			var inputs []string
+			for _, r := range midxs {
+				inputs = append(inputs, filepath.Base(r.Filename()))
+			}
+			zz.FSRemove(root2 + "/idx/" + inputs[zz.Choice("deleted-input", len(inputs))])
 		}
 		release()
 		mgr.jobs <- impDone
@@ -220,6 +227,13 @@ func ZZ_C12_Restart() {
 		zz.FSCopyFile(zzRoot+"/"+f, root2+"/"+f)
 		sz := zz.FSSize(root2 + "/" + f)
 		zz.FSTruncate(root2+"/"+f, []int{0, 1, sz / 2, sz - 2}[zz.Choice("cut", 4)])
+	case 8: // killed after the new state file was written and before the old one was removed
+		zz.FSCopyTree(zzRoot, root2)
+		before := zz.FSList(zzRoot)
+		zz.Assert(mgr.AddTag("tag/late", "#555555", "sport:443") == nil, "addtag")
+		f := zzNewest(zzRoot, ".state.json", before)
+		zz.Assert(f != "", "gate.addtag-wrote-a-state-file")
+		zz.FSCopyFile(zzRoot+"/"+f, root2+"/"+f)
 	}
 
 	// ---- second life
